@@ -30,7 +30,9 @@ RULE = ("case = a multiset of 1-7 distinct atoms (elements, isotopes, D/T, ions,
         "running sum is taken and checked against its own model as soon as it exists and again after it was used "
         "as an operand; plus operation histories of pbt/fops_c02.py (constructors, copy, +, n*, +=, again) with "
         "the Hill form of the result and of the operands checked after every step (flag) and of all variables "
-        "at the end; plus long histories: 1-5 ionic formulas (either table) are built and their Hill forms taken, "
+        "at the end (multipliers 0 and 0.0 and counts written as zero included; composition series x*A + (1-x)*B with "
+        "x in {0, 1, .5, .25}: hill.atoms == f.atoms as dicts, zero-count keys included; against the model a "
+        "zero count is the same as absent); plus long histories: 1-5 ionic formulas (either table) are built and their Hill forms taken, "
         "every element ion of the table (499) and drawn isotope ions are then looked up or parsed in a drawn order, "
         "and afterwards the held formulas, new spellings of the same atoms (reversed dict, reversed string, "
         "regrouped string) and held+new / new+held sums must pass the same oracle, with Hill forms equal to those "
@@ -352,11 +354,12 @@ def check_hill(E, f, model, where, case, exact=True):
         if k in got or a is not key_to_atom(table, k):
             raise Violation("c19:atoms:identity", "%s: Hill form has a foreign/duplicate atom %r" % (where, a), case)
         got[k] = n
+    # against the model an atom with count 0 counts as absent (0*A + B); against f.atoms the dicts must be equal
+    union = set(got) | set(model)
     if exact:
-        bad = set(got) != set(model) or any(Fraction(got[k]) != model[k] for k in model)
+        bad = any(Fraction(got.get(k, 0)) != model.get(k, 0) for k in union)
     else:
-        bad = set(got) != set(model) or any(
-            abs(float(got[k]) - float(model[k])) > 1e-12 * abs(float(model[k])) for k in model)
+        bad = any(abs(float(got.get(k, 0)) - float(model.get(k, 0))) > 1e-12 * abs(float(model.get(k, 0))) for k in union)
     if bad:
         raise Violation("c19:atoms", "%s: Hill form %s has atoms %r, expected %r"
                         % (where, h, got, dict((k, float(c)) for k, c in model.items())), case)
@@ -379,7 +382,7 @@ def check_hill(E, f, model, where, case, exact=True):
             raise Violation("c19:not-flat", "%s: Hill structure %r is not a flat list of (count, atom)"
                             % (where, h.structure), case)
         seq.append(entry[1])
-    if len(seq) != len(model):
+    if len(set(id(a) for a in seq)) != len(seq):
         raise Violation("c19:duplicates", "%s: Hill structure %r lists an atom twice" % (where, h.structure), case)
     keys = [hill_key(a) for a in seq]
     for x, y, ax, ay in zip(keys, keys[1:], seq, seq[1:]):
@@ -506,7 +509,7 @@ def check_history(ctx, value):
 
     def look(vars_, i, where):
         v = vars_[i]
-        if not v.comp or any(c <= 0 for c in v.comp.values()):
+        if not v.comp or any(c < 0 for c in v.comp.values()):
             return
         seen.update(v.comp)
         check_hill(on_table(E, v.table), v.f, v.comp, where + " (%s table)" % v.table, case, exact=False)
@@ -655,18 +658,32 @@ def task_multisets(ctx, n):
 
 def task_histories(ctx, n, steps=14):
     E = env()
-    strat = st.tuples(ops.history(E["pool"], max_steps=steps, mult=ops.number(), tables=True), st.sampled_from([True, True, False]))
+    strat = st.tuples(ops.history(E["pool"], max_steps=steps, mult=ops.number(zero=True), tables=True, zeros=True), st.sampled_from([True, True, False]))
     ctx.search("histories", strat.map(list), check_history, n)
+
+
+SERIES = [[0, 1], [1, 0], [0.0, 1.0], [1.0, 0.0], [0, 1.0], [0.5, 0.5], [0.25, 0.75], [0, 0]]
+
+
+def task_series(ctx, n):
+    """Composition series x*A + (1-x)*B including the end members x = 0 and x = 1."""
+    E = env()
+    c = ops.constructor(E["pool"], tables=False, zeros=True)
+    strat = st.tuples(c, c, st.sampled_from(SERIES), st.booleans()).map(
+        lambda t: [[t[0], t[1], ["mul", t[2][0], 0], ["mul", t[2][1], 1], ["add", 2, 3], ["add", 3, 2], ["iadd", 2, 3]], t[3]])
+    ctx.search("series", strat, check_history, n)
 
 
 def tasks(tier):
     if tier == "quick":
         return ([("multisets-%d" % k, task_multisets, dict(n=330)) for k in range(8)] +
                 [("histories-%d" % k, task_histories, dict(n=200)) for k in range(3)] +
-                [("long-%d" % k, task_long, dict(n=60)) for k in range(2)])
+                [("long-%d" % k, task_long, dict(n=60)) for k in range(2)] +
+                [("series", task_series, dict(n=150))])
     return ([("multisets-%d" % k, task_multisets, dict(n=10000)) for k in range(12)] +
             [("histories-%d" % k, task_histories, dict(n=4000, steps=12 + 4 * k)) for k in range(4)] +
-            [("long-%d" % k, task_long, dict(n=1500)) for k in range(2)])
+            [("long-%d" % k, task_long, dict(n=1500)) for k in range(2)] +
+            [("series", task_series, dict(n=4000))])
 
 
 def replay(ctx, case):
